@@ -198,7 +198,8 @@ pub fn compose_std_command<S: AsRef<OsStr>, SE: extensions::ShellExtensions>(
             // NOTE: To match bash behavior, we only include exported variables
             // that are set (i.e., have a value). This means a variable that
             // shows up in `declare -p` but has no *set* value will be omitted.
-            if v.value().is_set() {
+            // Array variables are never passed to child processes.
+            if v.value().is_set() && !v.value().is_array() {
                 cmd.env(k.as_str(), v.value().to_cow_str(context.shell).as_ref());
             }
         }
